@@ -216,6 +216,12 @@ func toEnumList(src val.EnumList, v interface{}) (val.EnumList, error) {
 }
 
 func toEnum(src val.EnumList, v interface{}) (val.Enum, error) {
+	if name, isText := v.(string); isText {
+		// text is the name of the enum, also when it looks like a number
+		if e, found := src.ByLabel(name); found {
+			return e, nil
+		}
+	}
 	if id, isNum := val.Conv(val.FmtInt32, v); isNum == nil {
 		if e, found := src.ById(id.Value().(int)); found {
 			return e, nil
